@@ -109,7 +109,8 @@ def replay_levinson(chk, st, cplx):
         if st['status'] == 'pd' and k >= 1:
             ok, res = call_guard(LEVINSON, arr, order=np_int(0, getattr(chk, '_c10_flag', 0)))
             r0 = M.cq_complex(r[0]).real
-            bad = ('raises %r' % (res,)) if not ok else (None if (len(res[0]) == 0 and len(res[2]) == 0 and abs(complex(res[1]) - r0) <= 1e-12 * abs(r0)) else
+            # (an implementation that refuses order 0 loudly breaks nothing: what must not happen is a wrong answer)
+            bad = None if not ok else (None if (len(res[0]) == 0 and len(res[2]) == 0 and abs(complex(res[1]) - r0) <= 1e-12 * abs(r0)) else
                                                         'returns %d coefficients, P=%r (r[0]=%r)' % (len(res[0]), res[1], r0))
             if bad:
                 chk.violation('LEVINSON:order-zero:%s' % mode, 'LEVINSON(r, order=0) for r=%s: %s' % (case['r'], bad), dict(case, order=0))
